@@ -613,6 +613,22 @@ def _set_parents(tree):
             c._parent = n
 
 
+def _scope_statements(scope):
+    """statements of a function / module body including those nested in compound statements, not in nested defs"""
+    todo = list(scope.body)
+    while todo:
+        st = todo.pop(0)
+        yield st
+        if isinstance(st, (ast.FunctionDef, ast.AsyncFunctionDef, ast.ClassDef)):
+            continue
+        for fld in ("body", "orelse", "finalbody"):
+            sub = getattr(st, fld, None)
+            if isinstance(sub, list):
+                todo.extend(x for x in sub if isinstance(x, ast.stmt))
+        for h in getattr(st, "handlers", []) or []:
+            todo.extend(h.body)
+
+
 def _lookup_def(call):
     """FunctionDef a call denotes when that is lexically evident: `name(...)` -> a def of that name in an enclosing
     function or at module level; `self.name(...)` / `cls.name(...)` -> a method of the enclosing class."""
@@ -628,10 +644,11 @@ def _lookup_def(call):
         p = getattr(p, "_parent", None)
     if isinstance(f, ast.Name):
         for sc in scopes:
-            found = [st for st in sc.body if isinstance(st, (ast.FunctionDef, ast.AsyncFunctionDef)) and st.name == f.id]
+            stmts = list(_scope_statements(sc))
+            found = [st for st in stmts if isinstance(st, (ast.FunctionDef, ast.AsyncFunctionDef)) and st.name == f.id]
             # a name that is also assigned in that scope is not reliably the def
             if found:
-                rebound = any(isinstance(st, ast.Assign) and any(isinstance(t, ast.Name) and t.id == f.id for t in st.targets) for st in sc.body)
+                rebound = any(isinstance(st, ast.Assign) and any(isinstance(t, ast.Name) and t.id == f.id for t in st.targets) for st in stmts)
                 return None if rebound or len(found) != 1 else found[0]
             if isinstance(sc, (ast.FunctionDef, ast.AsyncFunctionDef)):
                 a = sc.args
